@@ -295,7 +295,9 @@ package core
 //@   requires forall s int32 :: has(f.Peer.Frags, s) ==> (has(f.Peer.Body, s) && f.Peer.Body[s] != nil)
 //@   requires forall s int32 :: (has(f.Peer.Body, s) && f.Peer.Body[s] == f) ==> len(f.Peer.Frags[s]) == arrn(f.RspBody)
 //@   ensures[done] f.Done && len(f.Rsp) == arrn(f.RspBody)
-//@   ensures[empty] arrn(f.RspBody) < 1 ==> f.Error == codec.ErrUnKnownMget && result == nil
+//@   ensures[empty] arrn(f.RspBody) < 1 ==> f.Error == codec.ErrUnKnownMget && result == nil && f.Peer.RspBody == old(f.Peer.RspBody) && f.Peer.Done == old(f.Peer.Done)
+//@   ensures[backing] (f.Peer.RspBody.base == old(f.Peer.RspBody.base) && f.Peer.RspBody.off == old(f.Peer.RspBody.off) && cap(f.Peer.RspBody) == old(cap(f.Peer.RspBody))) || fresh(f.Peer.RspBody)
+//@   ensures[noerr] arrn(f.RspBody) >= 1 ==> f.Error == old(f.Error)
 //@   ensures[wait] (arrn(f.RspBody) >= 1 && f.Peer.FragDoneNumber < len(f.Peer.Body)) ==> result == codec.Continue && f.Peer.Done == old(f.Peer.Done) && f.Peer.RspBody == old(f.Peer.RspBody)
 //@   ensures[final] (arrn(f.RspBody) >= 1 && f.Peer.FragDoneNumber >= len(f.Peer.Body)) ==> result == nil && f.Peer.Done
 //@   ensures[toolarge@C17] (old(f.Peer.Error) != codec.ErrMsgRspTooLarge && f.Peer.Error == codec.ErrMsgRspTooLarge) ==> bytes_eq(f.Peer.RspBody, "-ERR rsp msg length too large\r\n")
@@ -354,8 +356,12 @@ package core
 //@       && old(hd(c)).Peer.Done == old(hd(c).Peer.Done) && old(hd(c)).Peer.RspBody == old(hd(c).Peer.RspBody) && old(hd(c)).Peer.FragDoneNumber == old(hd(c).Peer.FragDoneNumber)
 //@   ensures[single@C02,C11] (err == nil && f.Owner != nil && f.Peer != nil && !split(f.Peer) && len(f.RspBody) <= EngineGlobal.sCodec.MsgMaxLength && old(hd(c).Error) == "")
 //@       ==> f.Peer.Done && f.Done && bytes_eq(f.Peer.RspBody, f.RspBody)
-//@   ensures[spliterr@C11] (err == nil && f.Owner != nil && f.Peer != nil && split(f.Peer) && f.RspBody[0] == '-' && len(f.RspBody) <= EngineGlobal.sCodec.MsgMaxLength && old(hd(c).Error) == "")
-//@       ==> f.Peer.Done && bytes_eq(f.Peer.RspBody, f.RspBody) && (forall k int32 :: has(f.Peer.Body, k) ==> f.Peer.Body[k].Done)
+//@   ensures[spliterr.done@C11] (err == nil && f.Owner != nil && f.Peer != nil && split(f.Peer) && f.RspBody[0] == '-' && len(f.RspBody) <= EngineGlobal.sCodec.MsgMaxLength && old(hd(c).Error) == "")
+//@       ==> f.Peer.Done
+//@   ensures[spliterr.body@C11] (err == nil && f.Owner != nil && f.Peer != nil && split(f.Peer) && f.RspBody[0] == '-' && len(f.RspBody) <= EngineGlobal.sCodec.MsgMaxLength && old(hd(c).Error) == "")
+//@       ==> bytes_eq(f.Peer.RspBody, f.RspBody)
+//@   ensures[spliterr.all@C11] (err == nil && f.Owner != nil && f.Peer != nil && split(f.Peer) && f.RspBody[0] == '-' && len(f.RspBody) <= EngineGlobal.sCodec.MsgMaxLength && old(hd(c).Error) == "")
+//@       ==> (forall k int32 :: has(f.Peer.Body, k) ==> f.Peer.Body[k].Done)
 //@   ensures[toolarge@C17] (err == nil && f.Owner != nil && f.Peer != nil && len(f.RspBody) > EngineGlobal.sCodec.MsgMaxLength)
 //@       ==> f.Peer.Done && bytes_eq(f.Peer.RspBody, "-ERR rsp msg length too large\r\n")
 //@   ensures[count@C07] (err == codec.Continue && f != nil) ==> f.Peer.FragDoneNumber == old(hd(c).Peer.FragDoneNumber) + 1 && f.Done
